@@ -889,9 +889,12 @@ func (s *Server) SetReplicationConfig(cfg config.ReplicationConfig) error {
 	if err := s.persistOptions.Persist(s.storage); err != nil {
 		s.persistOptions.SetReplicationConfig(old)
 		if rule != nil {
-			rule.Count = int(old.MaxReplicas)
-			rule.LocationLabels = old.LocationLabels
-			if e := s.GetRaftCluster().GetRuleManager().SetRule(rule); e != nil {
+			// again on a copy: SetRule has made rule the served rule, and an update that is the served
+			// object itself is taken for "no change" and not written to the storage.
+			rollback := *rule
+			rollback.Count = int(old.MaxReplicas)
+			rollback.LocationLabels = old.LocationLabels
+			if e := s.GetRaftCluster().GetRuleManager().SetRule(&rollback); e != nil {
 				log.Error("failed to roll back count of rule when update replication config", errs.ZapError(e))
 			}
 		}
